@@ -31,18 +31,25 @@ class StripCommentsFilter:
             else:
                 return sql.Token(T.Whitespace, ' ')
 
-        def _separate_group(token):
+        def _separate_group(token, next_):
             """The comment leads a nested group: keep the group apart from
-            the token in front of it (see "a/* c */as b")."""
+            the token in front of it (see "a/* c */as b"). A whitespace
+            behind the comment moves in front of the group instead of
+            becoming its first token (see "a/* c */ as b")."""
             node = tlist
             while node.parent is not None and node.parent.tokens[0] is node:
                 node = node.parent
             if node.parent is None:
                 return
+            if next_.is_whitespace:
+                tlist.tokens.remove(next_)
+                lead = next_
+            else:
+                lead = _get_insert_token(token)
             idx = node.parent.token_index(node)
             prev_ = node.parent.tokens[idx - 1]
             if not (prev_.is_whitespace or prev_.match(T.Punctuation, '(')):
-                node.parent.tokens.insert(idx, _get_insert_token(token))
+                node.parent.tokens.insert(idx, lead)
 
         sql_hints = (T.Comment.Multiline.Hint, T.Comment.Single.Hint)
         tidx, token = get_next_comment()
@@ -81,8 +88,9 @@ class StripCommentsFilter:
                 else:
                     tlist.tokens.remove(token)
                     if (prev_ is None and next_ is not None
-                            and not next_.is_whitespace):
-                        _separate_group(token)
+                            and not (next_.is_whitespace
+                                     and isinstance(tlist, sql.Comment))):
+                        _separate_group(token, next_)
                     # Nothing took the comment's place: the search goes on
                     # at its index (the next token has moved there).
                     tidx -= 1
